@@ -3,6 +3,7 @@ package main
 import (
 	"fmt"
 	"os"
+	"os/exec"
 	"runtime/debug"
 	"sort"
 	"strings"
@@ -66,7 +67,7 @@ type pathResult struct {
 func (e *Engine) runPath(sol *Solver, prefix []Decision, wantSample bool) (res pathResult) {
 	w := &World{eng: e, sol: sol, prefix: prefix,
 		globals: map[*ssa.Global]Ptr{}, initDone: map[*ssa.Package]int{}, syncObjs: map[Ptr]*syncObj{}, onceMap: map[Ptr]*onceObj{},
-		reached: map[string]bool{}, funcsSeen: map[*ssa.Function]bool{}, stubsSeen: map[string]bool{}, userData: map[string]any{}}
+		reached: map[string]bool{}, funcsSeen: map[*ssa.Function]bool{}, stubsSeen: map[string]bool{}, userData: map[string]any{}, inSummary: map[*ssa.Function]bool{}}
 	w.tf.emit = sol.Send
 	w.concrete = e.concreteInputs
 	sol.Push()
@@ -104,7 +105,9 @@ func (e *Engine) runPath(sol *Solver, prefix []Decision, wantSample bool) (res p
 			}
 			res.sample = s
 		}
-		sol.Pop()
+		if !sol.dead {
+			sol.Pop()
+		}
 		res.forks = w.forks
 		res.violations = w.violations
 		res.reached = w.reached
@@ -123,7 +126,7 @@ func (e *Engine) runPath(sol *Solver, prefix []Decision, wantSample bool) (res p
 				res.schedPts++
 			}
 		}
-		if sol.cmd == nil || res.msg == "solver died" {
+		if sol.cmd == nil || sol.dead {
 			sol.restart()
 		}
 	}()
@@ -299,6 +302,9 @@ func (e *Engine) explore(deadline time.Time) *Result {
 func solverBin() string {
 	if b := os.Getenv("GOSYM_SOLVER"); b != "" {
 		return b
+	}
+	if p, err := exec.LookPath("z3-new"); err == nil {
+		return p
 	}
 	return "z3"
 }
